@@ -741,6 +741,33 @@ pub fn run(ctx: &Ctx) -> i32 {
         let ivs = input_vectors(&pr.program.inputs, &pr.alph);
         run_prog::<PC>(ctx, pr, &std_cfg, "std", &ivs, if thorough { 3 } else { 2 });
     });
+    // 1b. the bit / limb decomposition family again under narrow rows (25 and 37 routed wires: a
+    //     BaseSumGate then holds 24 / 36 limbs, so 32- / 63- / 64-bit splits and range checks span
+    //     several gates) and under wide rows
+    {
+        let names = ["range_check", "low_bits", "split_low_high", "split_le", "split_then_le_sum", "exp_bits", "exp_gate", "le_sum", "random_access", "reduce_", "hash_no_pad_9", "permute["];
+        let sel: Vec<usize> = (0..d1.len()).filter(|i| names.iter().any(|n| d1[*i].program.name.starts_with(n))).collect();
+        let mut cfgs: Vec<(String, CircuitConfig)> = config_lattice(2).into_iter().filter(|(n, _)| n == "routed25" || n == "wires234_routed136").collect();
+        let mut narrow = std_cfg.clone();
+        narrow.num_routed_wires = 37;
+        cfgs.push(("routed37".into(), narrow));
+        // single-gate gadgets whose documented capacity is bounded by the routed wires (le_sum /
+        // split_le_base: START_LIMBS + limbs <= routed; exp_from_bits: bits <= routed - 2;
+        // random_access: list length <= what one RandomAccessGate row holds) are inadmissible on
+        // narrow rows beyond that capacity
+        let too_wide_for_narrow = ["exp_bits_40", "split_le_base2_63", "split_le_base3_40", "split_le_base4_31", "random_access_64", "split_then_le_sum_40", "split_then_le_sum_63"];
+        let pairs: Vec<(usize, usize)> = sel
+            .iter()
+            .flat_map(|p| (0..cfgs.len()).map(move |c| (*p, c)))
+            .filter(|(p, c)| !(cfgs[*c].1.num_routed_wires < 80 && too_wide_for_narrow.iter().any(|n| d1[*p].program.name.starts_with(n))))
+            .collect();
+        par_for(pairs.len(), |k| {
+            let (pi, ci) = pairs[k];
+            let pr = &d1[pi];
+            let ivs = input_vectors(&pr.program.inputs, &pr.alph);
+            run_prog::<PC>(ctx, pr, &cfgs[ci].1, &cfgs[ci].0, &ivs, 1);
+        });
+    }
     // 2. catalogue and lookups under the whole single-deviation configuration lattice
     let mut cat = catalogue();
     cat.extend(lookup_programs());
